@@ -352,7 +352,7 @@ void MBW_poll_one(MBW* self) __CPROVER_requires(g_exc == 0) __CPROVER_assigns(g_
 ''', enforce='MBW_poll', replace=['MBW_poll_one', 'BW__check_empty'], loopcontracts=True,
     funcs=[dict(src=dict(header=MBH, cls='ManualBackendWorker', name='poll', nth=0), src_params=[], cfun='MBW_poll', sig='void MBW_poll(MBW* self)', cls_c='MBW', member_fields=['_backend_worker'],
                 siblings=['poll_one'], pre_rules=MB_RULES,
-                loops={0: r'''
+                loops={r'while\s*\(\s*!': r'''
 __CPROVER_assigns(g_polls, g_checks, g_last_check)
 __CPROVER_loop_invariant(g_exc == 0)
 '''},
